@@ -268,7 +268,8 @@ public:
         {
             destruct_pixels(_view);
             create_view(dims, std::integral_constant<bool, IsPlanar>());
-            default_construct_pixels(_view);
+            try { default_construct_pixels(_view); }
+            catch (...) { _view = view_t(); throw; }   // no pixel is alive: hold none, keep the storage
         }
         else
         {
@@ -296,7 +297,8 @@ public:
         {
             destruct_pixels(_view);
             create_view(dims, typename std::integral_constant<bool, IsPlanar>());
-            uninitialized_fill_pixels(_view, p_in);
+            try { uninitialized_fill_pixels(_view, p_in); }
+            catch (...) { _view = view_t(); throw; }   // no pixel is alive: hold none, keep the storage
         }
         else
         {
@@ -325,7 +327,8 @@ public:
         {
             destruct_pixels(_view);
             create_view(dims, std::integral_constant<bool, IsPlanar>());
-            default_construct_pixels(_view);
+            try { default_construct_pixels(_view); }
+            catch (...) { _view = view_t(); throw; }   // no pixel is alive: hold none, keep the storage
         }
         else
         {
@@ -353,7 +356,8 @@ public:
         {
             destruct_pixels(_view);
             create_view(dims, std::integral_constant<bool, IsPlanar>());
-            uninitialized_fill_pixels(_view, p_in);
+            try { uninitialized_fill_pixels(_view, p_in); }
+            catch (...) { _view = view_t(); throw; }   // no pixel is alive: hold none, keep the storage
         }
         else
         {
